@@ -1413,6 +1413,10 @@ class ForAll(BinaryOperator):
             yield out
 
 
+def not_contains(a, b):
+    return not operator.contains(a, b)
+
+
 @dataclass(eq=False)
 class Comparator(BinaryOperator):
     """
@@ -1428,6 +1432,11 @@ class Comparator(BinaryOperator):
                                                     operator.le: "<=",
                                                     operator.gt: ">",
                                                     operator.ge: ">="}
+    inverse_operation_map: ClassVar[Dict[Any, Any]] = {operator.lt: operator.ge, operator.ge: operator.lt,
+                                                       operator.gt: operator.le, operator.le: operator.gt,
+                                                       operator.eq: operator.ne, operator.ne: operator.eq,
+                                                       operator.contains: not_contains,
+                                                       not_contains: operator.contains}
 
     @property
     def _invert_(self):
@@ -1439,26 +1448,9 @@ class Comparator(BinaryOperator):
             return
         self._invert__ = value
         prev_operation = self.operation
-        match self.operation:
-            case operator.lt:
-                self.operation = operator.ge if self._invert_ else self.operation
-            case operator.gt:
-                self.operation = operator.le if self._invert_ else self.operation
-            case operator.le:
-                self.operation = operator.gt if self._invert_ else self.operation
-            case operator.ge:
-                self.operation = operator.lt if self._invert_ else self.operation
-            case operator.eq:
-                self.operation = operator.ne if self._invert_ else self.operation
-            case operator.ne:
-                self.operation = operator.eq if self._invert_ else self.operation
-            case operator.contains:
-                def not_contains(a, b):
-                    return not operator.contains(a, b)
-
-                self.operation = not_contains if self._invert_ else self.operation
-            case _:
-                raise ValueError(f"Unsupported operation: {self.operation.__name__}")
+        if self.operation not in self.inverse_operation_map:
+            raise ValueError(f"Unsupported operation: {self.operation.__name__}")
+        self.operation = self.inverse_operation_map[self.operation]
         self._node_.name = self._node_.name.replace(prev_operation.__name__, self.operation.__name__)
 
     @property
@@ -1778,7 +1770,7 @@ def Not(operand: Any) -> SymbolicExpression:
     elif isinstance(operand, OR):
         operand = AND(Not(operand.left), Not(operand.right))
     else:
-        operand._invert_ = True
+        operand._invert_ = not operand._invert_
     return operand
 
 
